@@ -66,3 +66,13 @@ impl From<TryFromPrimitiveError> for AnyhowError {
 /// std::mem::replace (A-std): stores `src` in `dest`, returns the previous value
 pub assume_specification<T> [ std::mem::replace ] (dest: &mut T, src: T) -> (r: T)
     ensures *final(dest) == src, r == *old(dest);
+
+/// `==` / `!=` on NamespaceId (derived PartialEq over the 32 bytes in src/keys.rs and in prelude/ids.rs): structural equality
+impl vstd::std_specs::cmp::PartialEqSpecImpl for NamespaceId {
+    open spec fn obeys_eq_spec() -> bool { true }
+    open spec fn eq_spec(&self, other: &NamespaceId) -> bool { *self == *other }
+}
+impl vstd::std_specs::convert::FromSpecImpl<&[u8; 32]> for NamespaceId {
+    open spec fn obeys_from_spec() -> bool { true }
+    open spec fn from_spec(v: &[u8; 32]) -> NamespaceId { NamespaceId(*v) }
+}
